@@ -9,7 +9,7 @@ Section SprogInd.
   Hypothesis Hleaf : forall s, P (PSaveLeaf s).
   Hypothesis Hdet : P PDet.
   Hypothesis Hns : forall ns body, Forall P body -> P (PNs ns body).
-  Hypothesis Hscan : forall len body, Forall P body -> P (PScan len body).
+  Hypothesis Hscan : forall len rv body, Forall P body -> P (PScan len rv body).
   Hypothesis Hvmap : forall n body, Forall P body -> P (PVmap n body).
   Fixpoint sprog_ind' (p : sprog) : P p :=
     let fix all (l : list sprog) : Forall P l :=
@@ -19,7 +19,7 @@ Section SprogInd.
     | PSaveLeaf s => Hleaf s
     | PDet => Hdet
     | PNs ns body => Hns ns body (all body)
-    | PScan len body => Hscan len body (all body)
+    | PScan len rv body => Hscan len rv body (all body)
     | PVmap n body => Hvmap n body (all body)
     end.
 End SprogInd.
@@ -61,7 +61,7 @@ Qed.
 
 Theorem interp_correct1 : forall p, Correct1 p.
 Proof.
-  induction p as [n s|s| |ns body IH|len body IH|n body IH] using sprog_ind';
+  induction p as [n s|s| |ns body IH|len rv body IH|n body IH] using sprog_ind';
     intros idx path bs acc.
   - reflexivity.
   - reflexivity.
@@ -136,4 +136,47 @@ Proof.
   - rewrite aget_aset_same. rewrite IH by exact Hn.
     destruct (aget ns (entries t)) as [s|] eqn:E; [reflexivity|].
     clear. revert name'. induction path as [|k path IHp]; intros; cbn; reflexivity.
+Qed.
+
+(** ** scan direction: which execution step each stack position holds *)
+Lemma scan_order_length len rv : length (scan_order len rv) = len.
+Proof. unfold scan_order. destruct rv; rewrite ?rev_length, seq_length; reflexivity. Qed.
+
+Lemma scan_order_nth len rv i :
+  i < len -> nth i (scan_order len rv) 0 = if rv then len - 1 - i else i.
+Proof.
+  intros Hi. unfold scan_order. destruct rv.
+  - rewrite rev_nth by (rewrite seq_length; exact Hi). rewrite seq_length.
+    rewrite seq_nth by lia. lia.
+  - rewrite seq_nth by exact Hi. reflexivity.
+Qed.
+
+Lemma tget_tmerge_at_leaf : forall path name a t,
+  tget (path ++ [name]) (tmerge_at path (TNode [(name, TLeaf a)]) t) = Some (TLeaf a).
+Proof.
+  induction path as [|ns path IH]; intros name a t.
+  - cbn. rewrite aget_aset_same. reflexivity.
+  - cbn [tmerge_at app tget entries]. rewrite aget_aset_same. apply IH.
+Qed.
+
+(** a scan of a single named save: the collected value is the stack, over the positions, of the
+    value saved at execution step i (forward) resp. len-1-i (reverse) *)
+Lemma scan_save_positions len rv name site idx path bs acc :
+  0 < len ->
+  let v := fun k => inst (wrap bs (VSite site)) (idx ++ [k]) in
+  tget (path ++ [name]) (spec1 (PScan len rv [PSave name site]) idx path bs acc)
+  = Some (TLeaf (AStack (map v (scan_order len rv))))
+  /\ forall i, i < len ->
+       nth i (map v (scan_order len rv)) (AStack []) = v (if rv then len - 1 - i else i).
+Proof.
+  intros Hlen v. split.
+  - cbn [spec1 tset entries aset].
+    replace (tstack _ _) with (TNode [(name, TLeaf (AStack (map v (scan_order len rv))))]).
+    + apply tget_tmerge_at_leaf.
+    + cbn [tstack]. f_equal. f_equal. f_equal. f_equal. f_equal.
+      rewrite !map_map. apply map_ext. intros k. unfold child. cbn [entries aget].
+      rewrite Nat.eqb_refl. reflexivity.
+  - intros i Hi.
+    rewrite (nth_indep _ _ (v 0)) by (rewrite map_length, scan_order_length; exact Hi).
+    rewrite (map_nth v). rewrite scan_order_nth by exact Hi. reflexivity.
 Qed.
